@@ -30,7 +30,7 @@ class BruteOptions(SolverOptions):
 class BruteSolver(IncrementalTrackingSolver):
     LOGICS = PYSMT_LOGICS
     OptionsClass = BruteOptions
-    INT_WINDOW = range(-4, 9)
+    INT_WINDOW = range(-2, 5)
 
     def __init__(self, environment, logic=None, reverse=False, **options):
         from pysmt.logics import QF_AUFBVLIRA
